@@ -7,7 +7,7 @@ import ast
 
 from ..core import AnalysisError, Checker, call_name, calls_in, is_name, norm, param_names, walk_no_nested
 from ..effects import Effects, root_name
-from ..guards import dominating_tests
+from ..guards import dominating_tests, known_true
 from ..tables import Denotations
 from .. import gadgets as G
 from .. import genrules as R
@@ -74,7 +74,7 @@ def run(ck: Checker):
             if isinstance(c.func, ast.Attribute) and call_name(c) in R.OUTPUT_IFACE and root_name(c.func.value) == cp:
                 n_guard += 1
                 tests = dominating_tests(m, fn, c)
-                ok = any(pol and norm(t) == 'add_outputs' for t, pol in tests)
+                ok = known_true(tests, 'add_outputs')
                 ck.check(ok, 'C09.OUT-GUARD', m, c, f'{q}: `{call_name(c)}` runs only when add_outputs is true',
                          f'`{norm(c)[:90]}` changes the outputs of the host circuit even with add_outputs=False', construct=f'{q}: {norm(c)[:90]}')
         # forwarding add_outputs to a callee must pass it on unchanged
